@@ -41,13 +41,13 @@ CHECKS = {
         ref="2/C05",
     ),
     "C06": dict(
-        technique="property-based reference model: Hypothesis-generated validly nested trees rendered by an independent line-list layout model L and compared for exact string equality; metamorphic indent-shift / eol-substitution laws",
+        technique="property-based reference model: Hypothesis-generated validly nested trees rendered by an independent line-list layout model L and compared for exact string equality; complete enumeration of all sibling sequences of length <= 3 over 13 node kinds under 9 kinds of parent at two depths against the same model; metamorphic indent-shift / eol-substitution laws",
         text="Seeded generated-input search against a reference renderer written from the documented rule (exact equality for every indent/eol), plus two metamorphic laws that do not depend on the model. Exploration.",
         note="Trusted base: layout model L (self-tested); valid nesting only, metacharacter-free content.",
         ref="2/C06",
     ),
     "C07": dict(
-        technique="property-based metamorphic relation: render(tree with metadata nodes at generated positions) == render(tree without), dependency list == inserted objects resolved by the harness resolver; insert-then-remove through the list API",
+        technique="property-based metamorphic relation: render(tree with metadata nodes at generated positions) == render(tree without), dependency list == inserted objects resolved by the harness resolver; insert-then-remove through the list API; complete enumeration of one / two metadata nodes at every position of every sibling sequence of length <= 3 over 13 node kinds under 9 kinds of parent",
         text="Seeded generated-input search over trees and metadata positions (first/last/between/only child/in a row/inside void/beside a single text, each required to occur); metamorphic oracle. Exploration.",
         note="Trusted base: recipe stripping, harness dependency resolver D.",
         ref="2/C07",
@@ -65,7 +65,7 @@ CHECKS = {
         ref="2/C09",
     ),
     "C10": dict(
-        technique="property-based reference model: Hypothesis multisets of dependencies (colliding names, multi-component and suffixed versions) placed anywhere in generated trees vs. the harness's own resolver (integer-tuple version key, first-wins ties, first-occurrence order) decided on uid-tagged recipes; single-vs-list equivalence; generated invalid definitions must raise",
+        technique="property-based reference model: Hypothesis multisets of dependencies (colliding names, multi-component and suffixed versions) placed anywhere in generated trees vs. the harness's own resolver (integer-tuple version key, first-wins ties, first-occurrence order) decided on identity-tagged recipes; single-vs-list equivalence; complete enumeration of invalid definitions (field x item count x position x form x kind of defect) that must raise",
         text="Seeded generated-input search against an independent resolver; idempotence and placement-independence laws; validation clause enumerates invalid source/item shapes at generated indices. Exploration.",
         note="Trusted base: resolver D and its version key (cross-checked against packaging.Version on a fixed table at start-up).",
         ref="2/C10",
